@@ -231,7 +231,8 @@ fn v0_member(e: &'static Engine, prods: &'static [usize], pops: usize) {
 }
 
 /// sequential sweep: all consumer/producer operation sequences against a model
-fn sweep(e: &'static Engine, depth: usize) {
+/// `queue_first`: the queue is dropped while the handles are alive, then every handle is asked to remove
+fn sweep(e: &'static Engine, depth: usize, queue_first: bool) {
     // U push, P pop, A pop_if(always), N pop_if(never), K peek, R0/R1/R2 remove the handle of the i-th live push
     let alphabet = ['U', 'P', 'A', 'N', 'K', '0', '1', '2'];
     let mut idx = vec![0usize; depth];
@@ -300,8 +301,19 @@ fn sweep(e: &'static Engine, depth: usize) {
                 }
             }
         }
-        drop(hs);
-        drop(q);
+        if queue_first {
+            drop(q);
+            for (id, h) in hs.drain(..) {
+                if let Some(h) = h {
+                    if let Some(t) = h.remove() {
+                        e.fail("remove_after_consumed", &format!("remove({}) returned {} after the queue was dropped at sequence {:?}", id, t.id(), idx.iter().map(|i| alphabet[*i]).collect::<String>()));
+                    }
+                }
+            }
+        } else {
+            drop(hs);
+            drop(q);
+        }
         check_drops(e, 1..next);
         count += 1;
         let mut k = depth;
@@ -371,6 +383,8 @@ pub fn build(quick: bool) -> Vec<Scenario> {
     v.push(Scenario::new("C19", "list_v0", "list0.prod1_1.pop2", Arc::new(|e| v0_member(e, &[1, 1], 2))).fine().bound(d + 1));
     v.push(Scenario::new("C19", "list_v0", "list0.prod2_1.pop2", Arc::new(|e| v0_member(e, &[2, 1], 2))).fine().bound(d));
     let depth = if quick { 5 } else { 7 };
-    v.push(Scenario::new("C19", "sweep", format!("list.sweep.depth{}", depth), Arc::new(move |e| sweep(e, depth))).fine().sequential().bound(0).horizon(u64::MAX));
+    v.push(Scenario::new("C19", "sweep", format!("list.sweep.depth{}", depth), Arc::new(move |e| sweep(e, depth, false))).fine().sequential().bound(0).horizon(u64::MAX));
+    // handles that outlive the queue (timeout_list drops per-interval lists while TimeoutHandles are alive)
+    v.push(Scenario::new("C19", "sweep", format!("list.sweep.depth{}.queue_dropped_first", depth), Arc::new(move |e| sweep(e, depth, true))).fine().sequential().bound(0).horizon(u64::MAX));
     v
 }
